@@ -89,6 +89,9 @@ type Case struct {
 	Sched    Schedule `json:"sched"`
 	// Light: run on the light backend (same use cases and pool, in-memory key-value provider instead of Badger)
 	Light bool `json:"light,omitempty"`
+	// DirMax (light backend only): the directory limit the dir use case is built with (default 100; the
+	// assembled inline database clamps its limit to >= 100, so a full directory costs 100 writes there)
+	DirMax int `json:"dir_max,omitempty"`
 	// Search > 0 turns the case into a small search (used by replays of findings, so that they do not
 	// depend on step numbers): all schedules with <= Search forced preemptions are executed; the case
 	// fails with the first failing schedule (or reports the first schedule that shows the known
@@ -325,7 +328,7 @@ func Execute(c Case, trace bool) *Run {
 	out := detsync.Run(detsync.Config{Policy: pol, Trace: trace}, func() {
 		var err error
 		if c.Light {
-			b, err = newLight()
+			b, err = newLight(c.DirMax)
 		} else {
 			b, err = newHeavy(c.Keys)
 		}
